@@ -409,6 +409,9 @@ func main() {
 		if m, _ := r["mismatch"].(string); m != "" {
 			run.Violation("not-isolated-free-running", "free-running pass: "+m, r)
 		}
+		if c, _ := r["crashed"].(string); c != "" {
+			run.Violation("crash-free-running", "concurrent renders crashed in the free-running pass: "+c, r)
+		}
 		run.Cov["race_pass_"+strings.TrimSuffix(f, ".json")] = r
 	}
 	run.Cov["states"] = states
